@@ -1,4 +1,6 @@
 import Aurora.Lemmas.Cheque
+import Aurora.Lemmas.AtomicRegionUse
+import Aurora.Generated.ChequeStoreRegions
 /-!
 # C30 — Cheques are credited once and to the right peer
 
@@ -95,5 +97,75 @@ theorem C30_receiveOld_counterexample :
     ∃ st peer c r st' amt, receiveOld st peer c r = (st', .store (.ok amt)) ∧
       st.fwd peer ≠ some c.ben ∧ st'.credited 1 = 77 ∧ c.ben = 2 := by
   refine ⟨register (register (init 0) 0 1) 1 2, 0, ⟨2, 0, 77⟩, some 2, _, 77, rfl, by decide, by decide, rfl⟩
+
+/-! ### concurrent deliveries: the check and the store sit in one `chequeStore.lock` region
+
+`chequeStore.ReceiveCheque` is a check-then-act on the persisted record
+`traffic_last_received_cheque_<issuer>`: read the last cheque, compare, `Put` the new one.  The
+extractor (harness/cmd/extract/regions.go) regenerates on every run the sequence of
+`s.lock.Lock()/Unlock()`, `s.store.Get(lastReceivedChequeKey …)` (read) and
+`s.store.Put(lastReceivedChequeKey …)` (write) events of that function as an instruction list
+(`Aurora/Generated/ChequeStoreRegions.lean`). -/
+
+section Concurrent
+open Aurora.Generated
+
+/-- **static obligation** (by evaluation of the regenerated list): the locking pattern of
+    `ReceiveCheque` was recognised; every read of the last received cheque and the `store.Put`
+    happen while `s.lock` is held; the `Put` is preceded, inside the same critical section, by the
+    read it is decided on; and both a read and a write were found.  The seeded change C30-1
+    (`Lock()` moved below the "increasing" check) generates
+    `[.access 0 false, .lock 0, .access 0 true, .unlock 0]` and this fails. -/
+theorem C30_receive_check_and_store_one_region :
+    ChequeStoreRegions.ReceiveCheque.1 = true ∧
+    AtomicRegion.bodyOk ChequeStoreRegions.ReceiveCheque.2 = true ∧
+    AtomicRegion.hasReadWrite ChequeStoreRegions.ReceiveCheque.2 = true := by
+  decide
+
+/-- Clause 2 for concurrent deliveries to the cheque store.  Any number of goroutines, goroutine `t`
+    delivering cheque `chq t` (recovered signer `rec t`), each interpreting the instruction list
+    extracted from `ReceiveCheque`, with the cheque-store state as the shared cell, in any
+    interleaving of their atomic lock / unlock / read / store steps: every reachable state is the state
+    of the *sequential* model after the deliveries in the order `s.log` of their stores, the answers
+    handed out (`s.outs`) are the sequential answers, and therefore (`C30_credit_is_max`) the amounts
+    credited per issuer sum to the highest accepted cumulative payout — a cheque delivered twice at
+    the same time is credited once.  (Mutex semantics assumed: `Lock` is enabled only when the mutex
+    is free.) -/
+theorem C30_concurrent_deliveries_serial (self : Nat) (chq : Nat → Cheque) (rec : Nat → Option Nat) (d : St)
+    (s : AtomicRegion.St St StoreRes)
+    (hr : AtomicRegion.Reach (fun t x => storeOnly x (chq t) (rec t))
+            (fun _ => ChequeStoreRegions.ReceiveCheque.2) (init self) d s) :
+    let ops := s.log.map fun t => Op.srecv (chq t) (rec t)
+    s.cell = run (init self) ops ∧
+    s.outs = (AtomicRegion.seqRun (fun t x => storeOnly x (chq t) (rec t)) (init self) s.log).2 ∧
+    ∀ i, s.cell.earned i = (accCums (init self) ops i).foldl max 0 ∧
+         lastCum s.cell.store i = (accCums (init self) ops i).foldl max 0 := by
+  intro ops
+  have hser := AtomicRegion.atomic_serial (fun t x => storeOnly x (chq t) (rec t))
+    (fun _ => ChequeStoreRegions.ReceiveCheque.2) (fun _ => C30_receive_check_and_store_one_region.2.1) (init self) d s hr
+  have hcell : s.cell = run (init self) ops := by
+    have := congrArg Prod.fst hser
+    simp only at this
+    rw [this, seqRun_storeOnly]
+  refine ⟨hcell, congrArg Prod.snd hser, fun i => ?_⟩
+  have h := C30_credit_is_max self ops i
+  simp only at h
+  rw [hcell]
+  exact ⟨h.1, h.2.1⟩
+
+/-- the discipline is needed (non-vacuity of the hypothesis "body passes `bodyOk`"): with the read
+    before `Lock()` two deliveries of the same cheque for 10 are both credited 10 -/
+example : ∃ s : AtomicRegion.St Nat Nat,
+    AtomicRegion.Reach (fun _ => AtomicRegion.recvOp 10) (fun _ => AtomicRegion.splitBody) 0 0 s ∧
+    s.cell = 10 ∧ s.outs = [(0, 10), (1, 10)] ∧
+    (s.cell, s.outs) ≠ AtomicRegion.seqRun (fun _ => AtomicRegion.recvOp 10) 0 s.log :=
+  AtomicRegion.split_breaks
+
+/-- … and the theorem is about runs that exist: two goroutines delivering the same cheque for 10
+    through the extracted body — the second is answered `notIncreasing` -/
+example : (AtomicRegion.seqRun (fun (_ : Nat) x => storeOnly x ⟨1, 0, 10⟩ (some 1)) (init 0) [0, 1]).2
+    = [(0, .ok 10), (1, .notIncreasing)] := by decide
+
+end Concurrent
 
 end Aurora.Cheque
